@@ -201,6 +201,43 @@ def hyp_explore(ctx, strategy, body, max_examples, label=""):
 
 # -- main ------------------------------------------------------------------
 
+def _shrink_child(conn, shrink, sub, case):
+    try:
+        conn.send(("ok", shrink(sub, case)))
+    except Exception:
+        conn.send(("error", traceback.format_exc()))
+    finally:
+        conn.close()
+
+
+def _bounded_shrink(shrink, sub, case, timeout):
+    mp = multiprocessing.get_context("fork")
+    parent, child = mp.Pipe(duplex=False)
+    proc = mp.Process(target=_shrink_child, args=(child, shrink, sub, case))
+    proc.start()
+    child.close()
+    out = case
+    try:
+        if parent.poll(timeout):
+            status, val = parent.recv()
+            if status == "ok":
+                out = val
+            else:
+                print(val)
+        else:
+            print("note: minimisation stopped after %.0f s; the replay file holds the case as generated" % timeout)
+    except (EOFError, OSError):
+        pass
+    finally:
+        if proc.is_alive():
+            proc.terminate()
+            proc.join(5)
+            if proc.is_alive():
+                proc.kill()
+        proc.join(5)
+    return out
+
+
 def _load_replays(pid):
     d = os.path.join(ROOT, "replays", pid)
     out = []
@@ -299,14 +336,15 @@ def main(argv=None):
 
         # 3. new failures -> minimise -> replay files
         os.makedirs(os.path.join(ROOT, "replays", "new"), exist_ok=True)
+        shrink_deadline = time.time() + 300
         for sig, f in sorted(ctx.failures.items()):
             case = f["case"]
             shrink = getattr(mod, "shrink", None)
             if shrink is not None:
-                try:
-                    case = shrink(f["sub"], case)
-                except Exception:
-                    traceback.print_exc()
+                # minimisation is a convenience and must never hold up the verdict: it runs in a child process
+                # with a time limit (a failure that makes the code under test slow would otherwise be re-run
+                # for every candidate); on a time-out the unshrunk case becomes the replay file
+                case = _bounded_shrink(shrink, f["sub"], case, max(5.0, min(120.0, shrink_deadline - time.time())))
             rep = dict(property=pid, sub=f["sub"], case=case, message=f["msg"],
                        signature=sig, occurrences=f["count"], seed=seed, tier=tier)
             name = "%s-%s.json" % (pid, hashlib.sha1(canon([f["sub"], case]).encode()).hexdigest()[:10])
